@@ -72,6 +72,16 @@ class Tree:
                 nid += 1
             nid += 7
 
+    def max_reorg_depth(self):
+        """Deepest possible reorganisation: blocks of one branch above the lowest fork point."""
+        kids = {}
+        for n, p in self.parent.items():
+            kids.setdefault(p, []).append(n)
+        forks = [p for p, k in kids.items() if len(k) > 1]
+        if not forks:
+            return 0
+        return max(self.depth.values()) - min(self.depth[f] for f in forks)
+
     def path_to(self, b):
         p = []
         while b != 0:
@@ -109,7 +119,10 @@ def gen_case(rng, idx):
         start = rng.choice(nodes)            # in the middle / on a fork (possibly never on the best chain)
     else:
         start = 777                          # not known to anybody
-    m = rng.choice([2, 3, 5, 8, 2000])
+    # a getheaders reply must be able to reach past the deepest possible reorganisation (on the network:
+    # 2000 headers), otherwise the handshake locator's reply can consist of known headers only for ever
+    ms = [m for m in (2, 3, 5, 8) if m >= t.max_reorg_depth()] + [2000]
+    m = rng.choice(ms + ms[:1])
     hostile = rng.chance(1, 2)               # reordering / duplication / out-of-order answers
     ops = []
     best = [0]
